@@ -342,7 +342,7 @@ def write_evidence(prop, tier, seed, coverage, assumptions, wall, violations):
 TRUSTED_BASE_COMMON = [
     'Coq 8.16.1 kernel; vm_compute (no native_compute)',
     'Print Assumptions of every property theorem: Closed under the global context (parsed on every run)',
-    'extraction with ExtrOcamlBasic only (bool, option, unit, list, prod, sumbool, sumor -> OCaml natives; andb/orb inlined); no Extract Constant/Inductive of our own; OCaml 4.13 + ocaml/driver.ml',
+    'extraction with ExtrOcamlBasic only (bool, option, unit, list, prod, sumbool, sumor -> OCaml natives; andb/orb inlined); no Extract Constant/Inductive of our own; OCaml 4.13 + ocaml/driver.ml, ocaml/drv_*.ml (one per line protocol / abstract model)',
     'correspondence check: Rust harness (harness/), line protocol, driver comparison',
     'tools/lib/bvlib/src2v.py, src2v_codec.py, src2v_sched.py: regex translator from /repo/src to coq/gen/*.v (layouts, router literals, the schedule table of every add_systems call; fails closed)',
 ]
